@@ -1,3 +1,4 @@
+import Harper.Driver.Typst
 import Harper.Driver.Rules
 import Harper.Driver.Markdown
 import Harper.Driver.Condense
@@ -101,7 +102,11 @@ def handlers : List (String × (List String → String)) := [
   ("isolatev", Markdown.handleIsolateV),
   ("rule", Rules.handleRule),
   ("rulemo", Rules.handleRuleMo),
-  ("ruletoks", Rules.handleRuleToks)
+  ("ruletoks", Rules.handleRuleToks),
+  ("typst", Typst.handleTypst),
+  ("typok", Typst.handleTypOk),
+  ("htmlclamp", Typst.handleHtmlClamp),
+  ("htmlclampt", Typst.handleHtmlClampT)
 ]
 
 def handle (line : String) : String :=
